@@ -27,7 +27,7 @@ CLAIMED = {
             "seeded simulation, reference model of link semantics", "4 C10"),
     "C11": ("exploration", "chmod / chmod_b (all options, generated well-formed and malformed expressions) and chown / chown_b against an independent evaluator of the documented grammar and a which-entries-changed oracle; DIFF leg on Stdfs",
             "seeded simulation, independent grammar evaluator", "4 C11"),
-    "C12": ("exploration", "hostile-client profile on Memfs: adversarial arguments in the middle of ordinary histories; outcome must be Ok/Err (no panic, watchdog for hangs) and a liveness probe plus poison flag after every failing call. Only the Memfs clause is decided (helpers only as reached through Memfs)",
+    "C12": ("exploration", "hostile-client profile on Memfs: adversarial arguments in the middle of ordinary histories; outcome must be Ok/Err (no panic, watchdog for hangs) and a liveness probe plus poison flag after every failing call. The Memfs clause is what is decided; the public path / string helpers are additionally called directly with the same hostile text (no-panic only), which is input generation rather than simulation and is labelled as auxiliary",
             "seeded simulation with hostile-argument injection, watchdog", "4 C12"),
     "C13": ("exploration", "every generated history executed in lock step directly and through Vfs / VfsEntry; transcripts (values, error kinds) and states must be identical; every VfsEntry is read through the enum and through the wrapped value across follow(true)/follow(false)/follow(true); the Vfs::Stdfs arms run against Stdfs in two sibling sandboxes",
             "seeded simulation, lock-step transcript comparison", "4 C13"),
